@@ -120,6 +120,28 @@ var specs = []fnSpec{
 		effects: true,
 	},
 	{
+		file: "server/server.go", goName: "Flush", callAs: "s.Flush", leanName: "flush",
+		params: []param{
+			{goName: "ctx", goType: "context.Context", lean: "ctx", kd: kStr, skip: true},
+			{goName: "req", goType: "*spb.FlushRequest", lean: "req", kd: kPtr("FlushRequest")},
+		},
+		goRets: "*spb.FlushResponse, error", rets: []string{"fresp", "err"},
+		oracleParams: []param{
+			{goName: "§chkErr", lean: "chkErr", kd: kind{k: "status"}},
+			{goName: "§known", lean: "known", kd: kind{k: "list", s: "String"}},
+			{goName: "§niR", lean: "niR", kd: kPtr("Unit")},
+			{goName: "§niKnown", lean: "niKnown", kd: kind{k: "fun", t: []kind{kBool, kStr}}},
+			{goName: "§flushErr", lean: "flushErr", kd: kind{k: "status"}},
+		},
+		oracles: map[string]oracle{
+			"s.checkFlushRequest":                {results: []string{"§chkErr"}},
+			"s.masterRIB.KnownNetworkInstances": {results: []string{"§known"}},
+			"s.masterRIB.NetworkInstanceRIB":    {results: []string{"§niR", "§niKnown@0"}},
+			"s.masterRIB.Flush":                  {results: []string{"§flushErr"}, effect: "flush"},
+		},
+		effects: true,
+	},
+	{
 		file: "server/server.go", goName: "checkFlushRequest", callAs: "s.checkFlushRequest", leanName: "checkFlushRequest",
 		params: []param{
 			{goName: "req", goType: "*spb.FlushRequest", lean: "req", kd: kPtr("FlushRequest")},
